@@ -240,6 +240,113 @@ def r12(repo, res):
     return stored
 
 
+def _linlen(e, pos_name):
+    """Linear form {atom: coef, 1: const} of an integer expression over len(<name>) atoms and the position itself."""
+    if isinstance(e, ast.Constant) and isinstance(e.value, int):
+        return {1: e.value}
+    if isinstance(e, ast.Name):
+        return {("name", e.id): 1}
+    if isinstance(e, ast.Call) and isinstance(e.func, ast.Name) and e.func.id == "len" and len(e.args) == 1:
+        a = e.args[0]
+        if isinstance(a, ast.Name):
+            return {("len", a.id): 1}
+        if isinstance(a, ast.Subscript) and isinstance(a.value, ast.Name) and isinstance(a.slice, ast.Slice) \
+                and a.slice.upper is None and a.slice.step is None and isinstance(a.slice.lower, ast.Constant):
+            return {("len", a.value.id): 1, 1: -a.slice.lower.value}
+        return None
+    if isinstance(e, ast.BinOp) and isinstance(e.op, (ast.Add, ast.Sub)):
+        l, r = _linlen(e.left, pos_name), _linlen(e.right, pos_name)
+        if l is None or r is None:
+            return None
+        out = dict(l)
+        sg = 1 if isinstance(e.op, ast.Add) else -1
+        for k, v in r.items():
+            out[k] = out.get(k, 0) + sg * v
+        return {k: v for k, v in out.items() if v}
+    return None
+
+
+def r1_symbolic(repo, res):
+    """Syntactic cross-check of the reverse-strand offset table (per variant kind) in process_mutation."""
+    try:
+        f, pm = converter(repo)
+    except AnalysisError:
+        return
+    strand_if = [n for n in ast.walk(pm) if isinstance(n, ast.If) and "self.strand" in ast.unparse(n.test)]
+    if not strand_if:
+        res.note("C08.R1: no `if self.strand < 0` block in process_mutation; only the folded haplotype table is checked")
+        return
+    table = {}
+
+    def kind_of(test):
+        t = ast.unparse(test)
+        if "'>' in" in t:
+            return "substitution"
+        if "== 'ins'" in t and "[:3]" in t:
+            return "insertion"
+        if "'ins' in" in t:
+            return "deletion-insertion"
+        if "== 'del'" in t:
+            return "deletion"
+        return None
+
+    def delta(stmts, pos="pos"):
+        tot = {}
+        for st in stmts:
+            if isinstance(st, ast.AugAssign) and isinstance(st.target, ast.Name) and st.target.id == pos and isinstance(st.op, (ast.Add, ast.Sub)):
+                d = _linlen(st.value, pos)
+                if d is None:
+                    return None
+                for k, v in d.items():
+                    tot[k] = tot.get(k, 0) + (v if isinstance(st.op, ast.Add) else -v)
+            elif isinstance(st, ast.Assign) and isinstance(st.targets[0], ast.Name) and st.targets[0].id == pos:
+                d = _linlen(st.value, pos)
+                if d is None or d.get(("name", pos)) != 1:
+                    return None
+                for k, v in d.items():
+                    if k != ("name", pos):
+                        tot[k] = tot.get(k, 0) + v
+        return {k: v for k, v in tot.items() if v}
+
+    def walk(ifnode, outer_kind=None):
+        cur = ifnode
+        while isinstance(cur, ast.If):
+            k = kind_of(cur.test) or outer_kind
+            inner = [s_ for s_ in cur.body if isinstance(s_, ast.If)]
+            if k == "deletion" and inner:
+                walk(inner[0], "deletion")
+            elif k:
+                kk = k
+                if outer_kind == "deletion" and "'ins' in" in ast.unparse(cur.test):
+                    kk = "deletion-insertion"
+                table[kk] = delta(cur.body)
+            if len(cur.orelse) == 1 and isinstance(cur.orelse[0], ast.If):
+                cur = cur.orelse[0]
+            else:
+                if cur.orelse and outer_kind == "deletion":
+                    table["deletion"] = delta(cur.orelse)
+                cur = None
+
+    body_if = [s_ for s_ in strand_if[0].body if isinstance(s_, ast.If)]
+    if not body_if:
+        res.note("C08.R1: strand block of process_mutation is not an if/elif chain over variant kinds; folded table only")
+        return
+    walk(body_if[0])
+    # which local holds which part: l = left allele, pd = deleted part, op = 'del' + deleted
+    want = {"substitution": [{("len", "l"): 1, 1: -1}], "insertion": [{1: 1}],
+            "deletion-insertion": [{("len", "pd"): 1, 1: -1}], "deletion": [{("len", "op"): 1, 1: -4}]}
+    for kind, exp in want.items():
+        got = table.get(kind)
+        if got is None:
+            res.note(f"C08.R1: offset of the {kind} branch is not in the syntactic language; folded table only")
+            continue
+        res.ob("C08.R1", pm, pm, got in exp,
+               expected={"substitution": "position += len(left allele) - 1", "insertion": "position += 1",
+                         "deletion-insertion": "position += len(deleted part) - 1", "deletion": "position += len(deleted) - 1 (= len(op) - 4)"}[kind],
+               found=" + ".join(f"{v}*{k[0]}({k[1]})" if k != 1 else str(v) for k, v in sorted(got.items(), key=str)) or "0",
+               clause="the strand arithmetic has a separate off-by-length rule per variant kind", key=f"symbolic-offset:{kind}")
+
+
 def r4(repo, res, stored):
     if not stored:
         return
@@ -369,6 +476,7 @@ def apply_variant_vcf(seq, p, ref, alt):
 def run(repo, res):
     r3(repo, res)
     stored = r12(repo, res)
+    r1_symbolic(repo, res)
     r4(repo, res, stored)
     r5(repo, res)
 
